@@ -11,6 +11,7 @@ import Scico.Proofs.OpAlgReject
 import Scico.Proofs.OpAlgStackTree
 import Scico.Proofs.OpAlgPlain
 import Scico.Proofs.OpAlgNonlin
+import Scico.Proofs.OpAlgFreeze
 
 namespace Scico.Props.C05
 open Scico.OpAlg Scico.DType
@@ -83,6 +84,36 @@ theorem C05_run_eq_denF (e : LExpr K) (m : Meta) (hm : infer e = .ok m)
   rw [hr]
   refine ⟨fun i => hI.ef.ev x i, Prod.ext hI.hm hI.hn, ⟨fun hc hl => ?_, hI.nl⟩⟩
   exact (build_sound e o hl hp hK hb).1.lin hc
+
+/-- **Freezing a block argument / fixing parameters of a `Function`.**  `F.freeze(argnum, val)` evaluates
+    `F` on the block array obtained from its argument by inserting `val` as block `p` (`p` = `argnum`
+    normalised: a negative index counts from the end), entry by entry as stated; `Fn.slice(index, *fix)`
+    evaluates the function with the free argument at parameter position `p`; `Fn.join()` evaluates it on
+    the blocks of its BlockArray argument. -/
+theorem C05_freeze_slice_join (o : Obj K) (k : Int) (valSh : Shape) (valDt : DT) (val : Vc K)
+    (f : Fn K) (fixArgs : List (Vc K)) (fixDts : List DT) :
+    (∀ r bs p, o.md.inShape = .nested bs → normIdx bs.length k = some p →
+        freeze o k valSh valDt val = .ok r → ∀ x,
+          r.eval x = o.eval (vinsert o.n (offsetOf bs p) (prodL (bs.getD p [])) val x)
+          ∧ ∀ j, (vinsert o.n (offsetOf bs p) (prodL (bs.getD p [])) val x).get j
+              = if j < o.n then
+                  (if j < offsetOf bs p then x.get j
+                   else if j < offsetOf bs p + prodL (bs.getD p []) then val.get (j - offsetOf bs p)
+                   else x.get (j - prodL (bs.getD p [])))
+                else 0)
+    ∧ (∀ p, normIdx f.inShapes.length k = some p → ∃ r, f.slice k fixArgs fixDts = .ok r
+        ∧ ∀ x, r.eval x = f.eval (fixArgs.take p ++ x :: fixArgs.drop p))
+    ∧ (∀ r, f.join = .ok r → ∀ x, r.eval x = f.eval (splitBlocks (f.inShapes.map Shape.size) 0 x)) := by
+  refine ⟨fun r bs p hsh hp h x => ?_, fun p hp => ?_, fun r hr x => ?_⟩
+  · obtain ⟨_, _, _, _, _, _, _, hev, _⟩ := freeze_spec o k valSh valDt val r bs p hsh hp h
+    exact ⟨hev x, fun j => vinsert_get _ _ _ _ _ j⟩
+  · obtain ⟨r, hr, _, _, _, _, _, hev⟩ := (slice_spec f k fixArgs fixDts).1 p hp
+    exact ⟨r, hr, hev⟩
+  · cases hd : f.inDts with
+    | nil => simp [Fn.join, hd] at hr
+    | cons d0 ds =>
+      obtain ⟨_, _, _, _, _, hev⟩ := (join_spec f d0 ds hd).2 r hr
+      exact hev x
 
 /-- the declared `matrix_shape` is the shape of the denoted matrix, and a linear expression is
     always built as a `LinearOperator` -/
